@@ -392,7 +392,7 @@ func runSimple(seed uint64, cas int, tier string) *SimpleRes {
 				continue
 			}
 			childLog("simple image %s", j.desc)
-			key, err := recoverSimple(j.img, k%2 == 1)
+			key, err := recoverSimple(j.img, res.Images%2 == 1)
 			res.Images++
 			if j.lo < j.hi {
 				res.InFlight++
